@@ -814,7 +814,17 @@ fn answer_lib(line: &str) -> String {
             let x = fin(a.at_jdn(j1), ops1);
             let y = fin(b.at_jdn(j2), ops2);
             assert_eq!(x.partial_cmp(&y), Some(x.cmp(&y)));
-            format!("{} {} {} {}", show_ord(x.cmp(&y)), b01(x == y), b01(hash_of(&x) == hash_of(&y)), b01(show_date(&x) == show_date(&y)))
+            format!(
+                "{} {} {} {} {} {} {} {}",
+                show_ord(x.cmp(&y)),
+                b01(x == y),
+                b01(hash_of(&x) == hash_of(&y)),
+                b01(show_date(&x) == show_date(&y)),
+                x.julian_day_number(),
+                cal_tok(&x.calendar()),
+                y.julian_day_number(),
+                cal_tok(&y.calendar())
+            )
         }
         ["chrono_from", y, m, d] => {
             let y: i32 = p!(y.parse().ok());
